@@ -4,7 +4,7 @@
    cola/linalg/inverse/gmres.py (gmres_fwd) over an abstract scalar/vector interface; the same term is executed on
    PrimFloat by the correspondence check. *)
 From Coq Require Import List Bool Arith QArith Qcanon.
-From Core Require Import C12_Ops C12_Witness C13_Model C13_Proofs C13_Reduction C13_Loop C13_Link C13_Summary C13_Witness.
+From Core Require Import C12_Ops C12_Witness C13_Model C13_Proofs C13_Reduction C13_Loop C13_Link C13_Summary C13_Witness C13_RInst.
 Import ListNotations.
 Local Close Scope Qc_scope. Local Close Scope Q_scope.
 
@@ -107,3 +107,9 @@ Theorem C13_witness_fixed_optimal :
   map this (gsolq false) = map this (gkrylov1 (qq 1 10)) /\ this (gres2 (gsolq false)) = (9 # 10)%Q.
 Proof. exact gmres_witness_fixed_optimal. Qed.
 Print Assumptions C13_witness_fixed_optimal.
+
+(* the law bundle used by the exact-arithmetic theorems is satisfiable: real scalars, R^2 with the Euclidean inner
+   product (this example, and only it, depends on the standard library's axioms of the real numbers) *)
+Example C13_laws_satisfiable : arn_laws ROps r2ops.
+Proof. exact arn_laws_R. Qed.
+Print Assumptions C13_laws_satisfiable.
